@@ -4,7 +4,11 @@ import (
 	"fmt"
 	"go/ast"
 	"go/types"
+	"os"
 	"sort"
+	"strings"
+
+	"golang.org/x/tools/go/ssa"
 )
 
 var dumpers = map[string]func(p *Prog, m *Model){}
@@ -95,6 +99,86 @@ func init() {
 	dumpers["droppederrs"] = func(p *Prog, m *Model) {
 		for _, d := range droppedErrors(p) {
 			fmt.Printf("%s\t%s\t%s\t%s\n", p.ipos(d.Site.In), shortName(d.Site.Fn), d.Site.calleeName(), d.How)
+		}
+	}
+}
+
+func init() {
+	dumpers["guards"] = func(p *Prog, m *Model) {
+		fnName := os.Getenv("FN")
+		var fns []*ssa.Function
+		for _, f := range allModFuncs(p) {
+			if shortName(f) == fnName || strings.HasPrefix(shortName(f), fnName+"$") {
+				fns = append(fns, f)
+			}
+		}
+		for _, fn := range fns {
+			fmt.Println("==", shortName(fn), "closure-var:", closureName(fn))
+			for _, b := range fn.Blocks {
+				for _, in := range b.Instrs {
+					switch x := in.(type) {
+					case ssa.CallInstruction:
+						cs := &callSite{In: x, Fn: fn, Static: x.Common().StaticCallee()}
+						name := cs.calleeName()
+						for _, c := range calleesOfSite(p, cs) {
+							if cn := closureName(c); cn != "" {
+								name = "closure " + cn
+							}
+						}
+						if strings.HasPrefix(name, "builtin.len") || strings.HasPrefix(name, "strings.") {
+							continue
+						}
+						fmt.Printf("  %s call %s  guards=%v  or=%q\n", p.ipos(in), name, guardSet(in), orGuardSet(in))
+					case *ssa.Store:
+						if fa, ok := x.Addr.(*ssa.FieldAddr); ok {
+							fmt.Printf("  %s store %s  guards=%v or=%q\n", p.ipos(in), fieldName(fa), guardSet(in), orGuardSet(in))
+						}
+					case *ssa.MapUpdate:
+						fmt.Printf("  %s mapupdate %s  guards=%v\n", p.ipos(in), descValue(x.Map, 0), guardSet(in))
+					}
+				}
+			}
+		}
+	}
+}
+
+func init() {
+	dumpers["guardrows"] = func(p *Prog, m *Model) {
+		// FN="fn1|site1;fn2|site2" -> TSV rows for tables/guards.tsv
+		byName := fnDisplayIndex(p)
+		for _, spec := range strings.Split(os.Getenv("FN"), ";") {
+			f, site, _ := strings.Cut(spec, "|")
+			fn := byName[f]
+			if fn == nil {
+				fmt.Println("# NOT FOUND", f)
+				continue
+			}
+			for _, gs := range guardSitesOf(p, fn) {
+				if site == "*" || gs.Name == site {
+					fmt.Printf("%s\t%s\t%s\tPROPS\tREASON\n", f, gs.Name, gs.Sig)
+				}
+			}
+		}
+	}
+}
+
+func init() {
+	dumpers["order"] = func(p *Prog, m *Model) {
+		par := p.Fn("(*cisco.State).addCmds")
+		fn := closureByName(par, "add")
+		fmt.Println("closure:", shortName(fn))
+		fo := sitesIn(p, fn, byCallee(p, "follow"))
+		ac := sitesIn(p, fn, byCallee(p, "(*cisco.State).addCmd"))
+		for _, x := range fo {
+			fmt.Println(" follow site", p.ipos(x.In), x.In.Block().Index)
+		}
+		for _, y := range ac {
+			fmt.Println(" addCmd site", p.ipos(y.In), y.In.Block().Index)
+		}
+		for _, x := range fo {
+			for _, y := range ac {
+				fmt.Println(p.ipos(x.In), "->", p.ipos(y.In), orderedInIteration(x.In, y.In))
+			}
 		}
 	}
 }
